@@ -16,8 +16,12 @@
 (*   SeedError(e)               getSeed failed (safe block hash unknown)     *)
 (*   Leader(e, seed, leader)    getLeader on e returned leader               *)
 (*                              (0 = an address that is no operator)         *)
-(*   Checklist(e, seed, b, idx, out)  window.index() = idx for the window at *)
-(*                              b; getActionsChecklist(idx, seed) = out      *)
+(*   Checklist(e, seed, b, idx, out, k)  window.index() = idx for the window *)
+(*                              at b; getActionsChecklist(idx, seed) = out;  *)
+(*                              the harness keeps the returned slice as k    *)
+(*   AppendNoop(k, k2, out)     allowed := append(slice k, ActionNoop) as    *)
+(*                              coordinate() does; kept as k2; reads out     *)
+(*   Recheck(k, out)            slice k is read again later: it reads out    *)
 EXTENDS Coordination, TraceKit
 
 VARIABLE l
@@ -25,7 +29,7 @@ tvars == <<vars, l>>
 TInit == Init /\ l = 1 /\ HwmInit
 IsEvent(e) == l <= Len(Trace) /\ Trace[l].event = e /\ l' = l + 1
 
-TReset == IsEvent("Reset") /\ hist' = {} /\ UNCHANGED <<seedOf, pick, draw, permOf, execs, cache>>
+TReset == IsEvent("Reset") /\ hist' = {} /\ UNCHANGED <<seedOf, pick, draw, permOf, execs, cache, heap, held>>
 
 TNewExecutor == IsEvent("NewExecutor") /\ NewExecutor(Trace[l].e, Trace[l].w, Trace[l].ops)
 
@@ -45,9 +49,22 @@ TChecklist ==
     /\ Trace[l].idx = Index(Trace[l].b)
     /\ \E hb \in BOOLEAN :
           /\ Trace[l].out = Checklist(Index(Trace[l].b), hb)
-          /\ GetChecklist(Trace[l].e, Trace[l].seed, Trace[l].b, hb)
+          /\ GetChecklist(Trace[l].e, Trace[l].seed, Trace[l].b, hb, Trace[l].k)
 
-TNext == TReset \/ TNewExecutor \/ TSeed \/ TSeedError \/ TLeader \/ TChecklist
+TAppendNoop ==
+    /\ IsEvent("AppendNoop")
+    /\ AppendNoop(Trace[l].k, Trace[l].k2)
+    /\ Trace[l].out = held[Trace[l].k].exp \o <<"Noop">>
+
+\* a slice returned earlier still reads what it read when it was returned
+TRecheck ==
+    /\ IsEvent("Recheck")
+    /\ Trace[l].k \in DOMAIN held
+    /\ Trace[l].out = held[Trace[l].k].exp
+    /\ Trace[l].out = Read(Trace[l].k)
+    /\ UNCHANGED vars
+
+TNext == TReset \/ TNewExecutor \/ TSeed \/ TSeedError \/ TLeader \/ TChecklist \/ TAppendNoop \/ TRecheck
 TSpec == TInit /\ [][TNext]_tvars
 Hwm == HwmConstraint(l)
 Accepted == HwmAccepted
